@@ -439,8 +439,8 @@ pub open spec fn sent_of(r: Request) -> Sent { Sent { url: r.url_s(), head: r.he
 pub tracked struct HW {
     /// requests a middleware handed to `client.send` (the redirect middleware's probes), oldest first
     pub ghost probes: Seq<Sent>,
-    /// what each probe was answered with (None: the send failed)
-    pub ghost answers: Seq<Option<ResponseAsync>>,
+    /// what each probe was answered with (Err: the send failed)
+    pub ghost answers: Seq<Result<ResponseAsync>>,
     /// requests handed to the rest of the chain with `next.run`
     pub ghost forwarded: Seq<Sent>,
     /// (middleware, request, length of the chain left for it) for each `Middleware::handle` called by `Next::run`
@@ -451,7 +451,29 @@ pub tracked struct HW {
     pub ghost shell: Seq<HttpRequest>,
     /// the shell's answers to them
     pub ghost shell_answers: Seq<HttpResult>,
+    /// outcome events handed to the app with update_app (value identities), oldest first
+    pub ghost outcome_events: Seq<int>,
+    /// the outcomes (crux_http::Result<Response<_>> values, by identity) the app's event constructor was called with
+    pub ghost outcomes: Seq<int>,
 }
+pub uninterp spec fn val_id<T>(t: T) -> int;
+/// `make_event(x)`: the app's event constructor called once with x (logged)
+pub fn call_make_event<X, Ev, F: FnOnce(X) -> Ev>(Tracked(w): Tracked<&mut HW>, f: F, x: X) -> (e: Ev)
+    requires call_requires(f, (x,)),
+    ensures
+        call_ensures(f, (x,), e),
+        *final(w) == (HW { outcomes: old(w).outcomes.push(val_id(x)), ..*old(w) }),
+{
+    proof { w.outcomes = w.outcomes.push(val_id(x)); }
+    f(x)
+}
+pub uninterp spec fn ev_id<Ev>(e: Ev) -> int;
+// ASSUMED (core): Result::and_then calls the function on an Ok value exactly once and passes an Err through
+pub assume_specification<T, E, U, F: FnOnce(T) -> core::result::Result<U, E>> [core::result::Result::<T, E>::and_then] (r: core::result::Result<T, E>, f: F) -> (out: core::result::Result<U, E>)
+    requires r matches Ok(t) ==> call_requires(f, (t,)),
+    ensures
+        r matches Ok(t) ==> call_ensures(f, (t,), out),
+        r matches Err(e) ==> out == Err::<U, E>(e);
 
 /// `Arc<dyn EffectSender + Send + Sync>`
 #[verifier::external_body]
@@ -483,7 +505,8 @@ impl Client {
     pub fn send(&self, Tracked(w): Tracked<&mut HW>, req: Request) -> (r: Result<ResponseAsync>)
         ensures
             final(w).probes == old(w).probes.push(sent_of(req)),
-            final(w).answers == old(w).answers.push(match r { Ok(a) => Some(a), Err(_) => None }),
+            final(w).answers == old(w).answers.push(r),
+            final(w).outcome_events == old(w).outcome_events, final(w).outcomes == old(w).outcomes,
             final(w).forwarded == old(w).forwarded,
             final(w).handled == old(w).handled,
             final(w).endpoint_calls == old(w).endpoint_calls,
@@ -589,19 +612,19 @@ proof fn redirect_codes_lemma(c: Seq<StatusCode>)
 
 /// Where a request that went to `cur` and was answered with `a` goes next: a redirect answer with
 /// a Location moves it to `resolve(cur, location)`; anything else leaves it where it is.
-pub open spec fn step(cur: Url, a: Option<ResponseAsync>) -> Url {
+pub open spec fn step(cur: Url, a: Result<ResponseAsync>) -> Url {
     match a {
-        Some(res) => if is_redirect(res.status_s()) {
+        Ok(res) => if is_redirect(res.status_s()) {
             match res.location() {
                 Some(l) => match resolve(cur, last_value_str(l)) { Ok(u) => u, Err(_) => cur },
                 None => cur,
             }
         } else { cur },
-        None => cur,
+        Err(_) => cur,
     }
 }
-pub open spec fn answered_redirect(a: Option<ResponseAsync>) -> bool {
-    a matches Some(res) && is_redirect(res.status_s())
+pub open spec fn answered_redirect(a: Result<ResponseAsync>) -> bool {
+    a matches Ok(res) && is_redirect(res.status_s())
 }
 /// where the request stands after the probes `n0..` of the log: at its own URL before the first
 /// probe, else one step from where the last probe went
@@ -764,6 +787,70 @@ pub open spec fn header_pairs(h: Seq<HttpHeader>) -> Seq<(Seq<char>, Seq<char>)>
 //@rule X6.world * s/\.effect_sender\.send\(/.effect_sender.send(Tracked(w), /
 //@rule X7.into 1 s/Ok\((\w+)\.into\(\)\)/Ok(response_from(\1))/
 //@end
+
+// ------------------------------------------------------------------ C15: exactly one outcome per result (capability API)
+/// crux_core::capability::CapabilityContext<HttpRequest, Event> as this API uses it
+#[verifier::external_body]
+#[verifier::accept_recursive_types(Event)]
+pub struct CapabilityContext<Event> { _p: core::marker::PhantomData<Event> }
+impl<Event> CapabilityContext<Event> {
+    // ASSUMED (proved in unit Q: CapabilityContext::update_app sends exactly one event)
+    #[verifier::external_body]
+    pub fn update_app(&self, event: Event, Tracked(w): Tracked<&mut HW>)
+        ensures
+            final(w).outcome_events == old(w).outcome_events.push(ev_id(event)),
+            final(w).probes == old(w).probes, final(w).answers == old(w).answers, final(w).outcomes == old(w).outcomes,
+    { unimplemented!() }
+    // X17: the task handed to spawn has, in the projection, already run to its end
+    pub fn spawn(&self, _task: ()) {}
+}
+impl<Event> Clone for CapabilityContext<Event> {
+    #[verifier::external_body]
+    fn clone(&self) -> (r: Self) { unimplemented!() }
+}
+pub struct Http<Event> { pub context: CapabilityContext<Event>, pub client: Client }
+pub enum CapOrClient<Event> { Client(Client), Capability(Http<Event>) }
+/// `Box<dyn ResponseExpectation<Body = ExpectBody> + Send>`: the body expectation (bytes / string / JSON)
+#[verifier::external_body]
+#[verifier::accept_recursive_types(ExpectBody)]
+pub struct BoxedExpectation<ExpectBody> { _p: core::marker::PhantomData<ExpectBody> }
+impl<ExpectBody> BoxedExpectation<ExpectBody> {
+    /// what the expectation makes of a response (encoding_rs / serde_json: uninterpreted)
+    pub uninterp spec fn decoded(&self, resp: Response<Vec<u8>>) -> Result<Response<ExpectBody>>;
+    #[verifier::external_body]
+    pub fn decode(&self, resp: Response<Vec<u8>>) -> (r: Result<Response<ExpectBody>>)
+        ensures r == self.decoded(resp),
+    { unimplemented!() }
+}
+pub struct RequestBuilder<Event, ExpectBody> {
+    pub req: Option<Request>,
+    pub cap_or_client: CapOrClient<Event>,
+    pub expectation: BoxedExpectation<ExpectBody>,
+}
+impl<Event, ExpectBody> RequestBuilder<Event, ExpectBody> {
+//@extract id=RequestBuilder::send file=crux_http/src/request_builder.rs within="impl<Event, ExpectBody> RequestBuilder<Event, ExpectBody>" item="fn send" props=C15
+//@expect pub fn send<F>(self, make_event: F) where F: FnOnce(crate::Result<Response<ExpectBody>>) -> Event + Send + 'static,
+//@sig fn send<F>(self, Tracked(w): Tracked<&mut HW>, make_event: F) where F: FnOnce(Result<Response<ExpectBody>>) -> Event
+//@contract
+        requires
+            self.cap_or_client is Capability, // (a middleware-context builder panics here, explicitly)
+            self.req is Some,
+            old(w).probes.len() == old(w).answers.len(),
+            forall|x: Result<Response<ExpectBody>>| call_requires(make_event, (x,)),
+        ensures
+            final(w).probes.len() == old(w).probes.len() + 1, // [C15/RequestBuilder::send/the-request-is-sent-exactly-once]
+            final(w).outcome_events.len() == old(w).outcome_events.len() + 1, // [C15/RequestBuilder::send/every-result-yields-exactly-one-outcome-event]
+            final(w).outcomes.len() == old(w).outcomes.len() + 1, // [C15/RequestBuilder::send/the-event-constructor-is-called-exactly-once]
+            final(w).answers.last() matches Err(e) ==> final(w).outcomes.last() == val_id(Err::<Response<ExpectBody>, HttpError>(e)), // [C15/RequestBuilder::send/an-error-from-the-chain-is-passed-to-the-app-unchanged]
+//@rule X17.async-block 1 s/async move \{/{/
+//@rule X17.await * s/\s*\.await\b//
+//@rule X6.world * s/\.client\.send\(/.client.send(Tracked(w), /
+//@rule X6.world * s/\.update_app\(([^;]*)\);/.update_app(\1, Tracked(w));/
+//@rule X6.world * s/\bmake_event\(/call_make_event(Tracked(w), make_event, /
+//@rule X7.turbofish 1 s/Response::<Vec<u8>>::new\(/response_new(/
+//@rule X1.closure-contract 1 closure#\.and_then\(#|$x: Response<Vec<u8>>| -> (d: Result<Response<ExpectBody>>) ensures d == self.expectation.decoded($x) // [C15/RequestBuilder::send/a-classified-response-is-decoded-by-the-body-expectation-exactly-once]\n#
+//@end
+}
 
 } // verus!
 
